@@ -25,16 +25,26 @@ class _Env:
     """Access to the three real settings, encoded as small naturals."""
 
     def __init__(self):
-        import spox._future as fut
-        import spox._node as node
-        import spox._value_prop as vp
-        import spox.opset.ai.onnx.v17 as op
-        from spox._var import NotImplementedOperatorDispatcher, Var
+        import importlib
 
-        self.fut, self.node, self.vp, self.op, self.Var = fut, node, vp, op, Var
-        self.NI = NotImplementedOperatorDispatcher
-        self.levels = list(node.TypeWarningLevel)
-        self.backends = list(vp.ValuePropBackend)
+        import spox._future as fut  # the public home of the three managers
+        import spox.opset.ai.onnx.v17 as op
+        from spox import Var
+
+        self.unobservable = {}  # setting index -> why its global cannot be read / written directly
+
+        def opt(mod):
+            try:
+                return importlib.import_module(mod)
+            except Exception as e:  # noqa: BLE001
+                self.unobservable[mod] = f"{type(e).__name__}: {e}"
+                return None
+
+        self.fut, self.op, self.Var = fut, op, Var
+        self.node, self.vp = opt("spox._node"), opt("spox._value_prop")
+        self.NI = getattr(opt("spox._var"), "NotImplementedOperatorDispatcher", None)
+        self.levels = list(fut.TypeWarningLevel)
+        self.backends = list(fut.ValuePropBackend)
 
     # ------------------------------------------------------------------ behavioural probes
     def prepare_probes(self):
@@ -118,27 +128,72 @@ class _Env:
         return out
 
     def read(self):
-        d = self.Var._operator_dispatcher
-        if isinstance(d, self.NI):
-            dv = 0
-        else:
-            dv = 1 + 2 * int(bool(d.type_promotion)) + int(bool(d.constant_promotion))
-        return [
-            self.levels.index(self.node._TYPE_WARNING_LEVEL),
-            self.backends.index(self.vp._VALUE_PROP_BACKEND),
-            dv,
-        ]
+        """The three globals as model values; -1 for one that is not where it used to be (registered in
+        `unobservable`, never raised: the behavioural oracle does not need them)."""
+        def r0():
+            return self.levels.index(self.node._TYPE_WARNING_LEVEL)
+
+        def r1():
+            return self.backends.index(self.vp._VALUE_PROP_BACKEND)
+
+        def r2():
+            d = self.Var._operator_dispatcher
+            if isinstance(d, self.NI):
+                return 0
+            return 1 + 2 * int(bool(d.type_promotion)) + int(bool(d.constant_promotion))
+
+        out = []
+        for j, f in enumerate((r0, r1, r2)):
+            try:
+                if j in self.unobservable:
+                    raise AttributeError
+                out.append(f())
+            except Exception as e:  # noqa: BLE001
+                self.unobservable.setdefault(j, f"{type(e).__name__}: {e}")
+                out.append(-1)
+        return out
 
     def write(self, vals):
-        self.node._TYPE_WARNING_LEVEL = self.levels[vals[0]]
-        self.vp._VALUE_PROP_BACKEND = self.backends[vals[1]]
-        if vals[2] == 0:
-            self.Var._operator_dispatcher = self.NI()
-        else:
-            k = vals[2] - 1
-            self.Var._operator_dispatcher = self.fut._NumpyLikeOperatorDispatcher(
-                self.op, bool(k // 2), bool(k % 2)
-            )
+        """Put the settings into a given state: directly; through the public setters where the global is
+        not reachable (the operator dispatcher then stays what it is)."""
+        try:
+            if 0 in self.unobservable or not hasattr(self.node, "_TYPE_WARNING_LEVEL"):
+                raise AttributeError  # never create a stray attribute that `read` would then find
+            self.node._TYPE_WARNING_LEVEL = self.levels[vals[0]]
+        except Exception:  # noqa: BLE001
+            try:
+                self.fut.set_type_warning_level(self.levels[vals[0]])
+            except Exception as e:  # noqa: BLE001
+                self.unobservable.setdefault("write0", f"{type(e).__name__}: {e}")
+        try:
+            if 1 in self.unobservable or not hasattr(self.vp, "_VALUE_PROP_BACKEND"):
+                raise AttributeError
+            self.vp._VALUE_PROP_BACKEND = self.backends[vals[1]]
+        except Exception:  # noqa: BLE001
+            try:
+                self.fut.set_value_prop_backend(self.backends[vals[1]])
+            except Exception as e:  # noqa: BLE001
+                self.unobservable.setdefault("write1", f"{type(e).__name__}: {e}")
+        try:
+            if 2 in self.unobservable or not hasattr(self.Var, "_operator_dispatcher"):
+                self.unobservable.setdefault(2, "Var._operator_dispatcher is not there")
+                return
+            if vals[2] == 0:
+                self.Var._operator_dispatcher = self.NI()
+            else:
+                k = vals[2] - 1
+                self.Var._operator_dispatcher = self.fut._NumpyLikeOperatorDispatcher(
+                    self.op, bool(k // 2), bool(k % 2)
+                )
+        except Exception as e:  # noqa: BLE001
+            self.unobservable.setdefault("write2", f"{type(e).__name__}: {e}")
+
+    def poke(self, which, val):
+        """The public, non-scoped setter of a setting, called by a block body."""
+        if which == 0:
+            self.fut.set_type_warning_level(self.levels[val])
+        elif which == 1:
+            self.fut.set_value_prop_backend(self.backends[val])
 
     def manager(self, which, arg):
         if which == 0:
@@ -150,7 +205,9 @@ class _Env:
             self.op, type_promotion=bool(k // 2), constant_promotion=bool(k % 2)
         )
 
-    def raise_somehow(self, how):
+    JUNK_OPERANDS = ["not a number", None, 1j, [1, 2], 2.5, b"x", ...]
+
+    def raise_somehow(self, how, junk=0):
         if how == 1:
             raise _Boom("body raised")
         if how == 2:  # an eager TypeError raised by spox itself inside the block
@@ -158,16 +215,40 @@ class _Env:
             from spox import Tensor, argument
 
             x = argument(Tensor(np.int64, ()))
-            d = self.Var._operator_dispatcher
-            if isinstance(d, self.NI):
-                x + 1  # TypeError: unsupported operand (operators not enabled)
+            try:
+                d = self.Var._operator_dispatcher
+                outside = isinstance(d, self.NI)
+            except Exception:  # noqa: BLE001
+                d, outside = None, True
+            bad = self.JUNK_OPERANDS[junk % len(self.JUNK_OPERANDS)]  # the eager errors come from several code paths
+            if junk % 2:
+                x + bad  # through the Python operator
+            elif outside:
+                x + "not a number"  # TypeError: unsupported operand (operators not enabled)
             else:
-                d.add(x, "not a number")  # spox's own eager TypeError
+                d.add(x, bad)  # spox's own eager TypeError
+            raise AssertionError("expected spox to raise")
+        if how == 9:  # another eager error of spox: an operator constructor given operands of different element types
+            import numpy as np
+            from spox import Tensor, argument
+
+            self.op.add(argument(Tensor(np.int64, ())), argument(Tensor(np.float32, ())))
             raise AssertionError("expected spox to raise")
         if how == 3:
             raise KeyError("k")
         if how == 4:  # not an Exception subclass: "any exception" includes these
             raise KeyboardInterrupt()
+        if how == 5:  # the exception generator-based managers treat specially
+            raise StopIteration("body")
+        if how == 6:
+            raise GeneratorExit()
+        if how == 7:
+            raise SystemExit(3)
+        if how == 8:  # an exception whose class hierarchy is unusual: raised from a nested handler, with a cause
+            try:
+                raise _Boom("inner")
+            except _Boom as e:
+                raise RuntimeError("generator raised StopIteration") from e
         raise _Boom("body raised")
 
 
@@ -218,8 +299,23 @@ def run_real(env: _Env, blocks, init, behave=False):
                 blog.append(rec["binside"][:3])
             for ib in b["inner"]:
                 run_block(ib)
+            if b.get("caught"):
+                # spox raises one of its eager TypeErrors inside the block and the body CATCHES it: the block is
+                # still running, so the entered setting (and the enclosing ones) must still be in force
+                for how_, junk_ in [(2, k_) for k_ in range(len(env.JUNK_OPERANDS))] + [(9, 0)]:
+                    try:
+                        env.raise_somehow(how_, junk_)
+                    except (TypeError, ValueError, AssertionError):
+                        pass
+                    except Exception:  # noqa: BLE001  (InferenceError etc.)
+                        pass
+                rec["inside2"] = env.read()
+            if b.get("poke") is not None:
+                # the body switches ITS OWN setting with the public non-scoped setter; on exit the setting from
+                # before the block must be back all the same
+                env.poke(b["which"], b["poke"])
             if b["raises"]:
-                env.raise_somehow(b.get("how", 1))
+                env.raise_somehow(b.get("how", 1), b.get("junk", 0))
 
         try:
             if b.get("form") == "decorator":
@@ -259,13 +355,19 @@ def oracle(records):
     bad = []
     for r in records:
         for j in range(3):  # attribute a leak to the setting that differs, not to the enclosing block
+            if -1 in (r["post"][j], r["pre"][j]):
+                continue  # this global is not observable on this tree (the behavioural oracle covers it)
             if r["post"][j] != r["pre"][j]:
                 kind = "leak-after-exception" if r["raises"] and j == r["which"] else "leak-after-exit"
                 bad.append((MANAGERS[j], kind, r))
         exp = list(r["pre"])
         exp[r["which"]] = r["arg"]
-        if r["inside"] is not None and r["inside"] != exp:
+        if r["inside"] is not None and -1 not in r["inside"] and -1 not in exp and r["inside"] != exp:
             bad.append((MANAGERS[r["which"]], "not-in-force-inside", r))
+        if r.get("inside2") is not None:
+            for j in range(3):
+                if -1 not in (r["inside2"][j], exp[j]) and r["inside2"][j] != exp[j]:
+                    bad.append((MANAGERS[j], "lost-inside-after-caught-error", dict(r, inside=r["inside2"])))
     return bad
 
 
@@ -400,7 +502,7 @@ def run_generator_scenario(env: _Env, sc):
 
 def generator_oracle(sc, final):
     return [(MANAGERS[j], "leak-after-generators", f"settings {sc['init']} before, {final} after all decorated generators finished or were closed")
-            for j in range(3) if final[j] != sc["init"][j]]
+            for j in range(3) if final[j] != -1 and final[j] != sc["init"][j]]
 
 
 def forests(n):
@@ -427,7 +529,12 @@ def decorate(blocks, rng: random.Random):
     for b in blocks:
         b["arg"] = rng.randrange(1 if b["which"] == 2 else 0, N_ARGS[b["which"]])
         b["form"] = rng.choice(["with", "decorator", "shared-decorator", "prebuilt"])
-        b["how"] = rng.choice([1, 1, 2, 3, 4])
+        b["how"] = rng.choice([1, 1, 2, 3, 4, 5, 6, 7, 8])
+        if b["which"] < 2 and rng.random() < 0.2:
+            b["poke"] = rng.randrange(N_ARGS[b["which"]])
+        if rng.random() < 0.3:
+            b["caught"] = True
+        b["junk"] = rng.randrange(7)
         decorate(b["inner"], rng)
 
 
@@ -476,12 +583,22 @@ def run(ck: core.Check):
 
     info = ctx_ir.generate()
     ck.cov["generated_ir"] = {k: v["ir"] for k, v in info.items()}
+    try:
+        from translator import ctx_writes
+
+        ck.cov["write_sites"] = ctx_writes.generate()
+    except Exception as e:  # noqa: BLE001
+        ck.broken("generated", "C16 write-site inventory", f"{type(e).__name__}: {e}")
     ck.lean(["SpoxModel.Props.C16"], audit="SpoxModel.Audit.C16")
     if ck.thorough:
         ck.leanchecker(["SpoxModel.Props.C16"])
 
-    env = _Env()
-    saved = env.read()
+    try:
+        env = _Env()
+        saved = env.read()
+    except Exception as e:  # noqa: BLE001
+        ck.broken("correspondence", "C16 spox._future not observable", f"{type(e).__name__}: {e}")
+        return
     rng = ck.rng
     cases = []
     maxn = ck.pick(3, 4)
@@ -504,7 +621,13 @@ def run(ck: core.Check):
     stats = {"raising_blocks": 0, "decorator_form": 0, "max_depth": 0, "spox_typeerror_bodies": 0}
     mismatches = 0
     for blocks, init, m in zip(cases, inits, model):
-        final, log, records = run_real(env, blocks, init)
+        try:
+            final, log, records = run_real(env, blocks, init)
+        except Exception as e:  # noqa: BLE001
+            mismatches += 1
+            if mismatches <= 3:
+                ck.broken("correspondence", "C16 history not observable", f"{strip(blocks)}: {type(e).__name__}: {e}")
+            continue
         key = ("hist", repr(strip(blocks)))
         ck.count(key if size(blocks) >= 2 or any(b["raises"] for b in blocks) else None)
         stats["max_depth"] = max(stats["max_depth"], depth(blocks))
@@ -529,7 +652,8 @@ def run(ck: core.Check):
                         f"case={strip(blocks)} init={init} model={m} real_final={final} real_log={log}",
                     )
     env.write(saved)
-
+    for k_, why in sorted(env.unobservable.items(), key=str):
+        ck.broken("correspondence", f"C16 setting global not observable ({MANAGERS[k_] if isinstance(k_, int) else k_})", why)
 
     # ---------------------------------------------------------------- managers as decorators on generator functions
     gstats = {"scenarios": 0, "interleaved": 0, "probes": 0, "reading_mismatches": 0}
@@ -631,7 +755,9 @@ def run(ck: core.Check):
     ck.exhaustive = False
     ck.rule = (
         f"all block forests with <= {maxn} blocks x 3 managers x raise/normal (args, with/decorator form, "
-        "exception class seeded-random) + seeded random histories up to 11 blocks/depth 6; "
+        "exception class seeded-random among plain / KeyError / spox's eager TypeError / KeyboardInterrupt / StopIteration / "
+        "GeneratorExit / SystemExit / RuntimeError-with-cause; a fifth of the blocks call the public setter of their own setting "
+        "at the end of the body) + seeded random histories up to 11 blocks/depth 6; "
         "non-trivial = at least 2 blocks or a raising body; distinct by (shape, managers, args, outcomes)"
     )
     ck.assumptions += [
